@@ -73,8 +73,9 @@ def jobs(tier):
     lowered = set(L.fname(L.byid[f]) for f in L.order)
     contracts = open(os.path.join(VERIF, 'contracts/string.h')).read()
     J = []
-    SLOW = ('s_append_self', 's_append_self_inline', 's_remove_char', 's_remove_char_inline')   # > 25 min each even for inline strings (overlapping memmove at symbolic offsets)
-    THOROUGH_ONLY = ('s_append',)   # 10 min
+    SLOW = ()
+    # with CBMC's own memmove model the overlapping-move jobs needed > 25 min each; with the byte-loop model 1-6 min
+    THOROUGH_ONLY = ('s_append', 's_append_self_inline', 's_remove_char_inline')   # s_append: 10 min; the *_inline jobs are sub-cases of s_append_self / s_remove_char
     for name, var, alias, mangled, decls, args in JOBS:
         if name in SLOW and not os.environ.get('MV_SLOW'):
             continue
@@ -99,7 +100,7 @@ def meta(tier):
     L = lower()
     return dict(
         level='other',
-        trusted_base=['clang 14 AST', 'mv/cxx2c.py', 'cbmc 6.11.0 / goto-instrument --dfcc / minisat', 'CBMC\'s library models of memcpy/memmove/realloc'],
+        trusted_base=['clang 14 AST', 'mv/cxx2c.py', 'cbmc 6.11.0 / goto-instrument --dfcc / minisat', 'CBMC\'s library models of memcpy/memmove/realloc', 'the byte-loop model of libc memmove (props/c17.py MEMMOVE) in the self-append and operator-=(char) jobs'],
         assumed_contracts=['String::LastIndexOf(char) (flat-memory idiom `while(--p >= s)`; assumed to return the documented result)'],
         assumptions=['malloc/realloc may fail (NULL) and otherwise return fresh memory', 'x86-64 little-endian layout of the String union (the lowered union has the field order clang reports)', 'single thread'],
         dropped=['_smallBuffer[i] lowered as pointer arithmetic (the code deliberately writes _smallBuffer[15], which aliases the free-bytes counter)', 'logging lowered to no-ops', 'MASSERT lowered to an assertion obligation'],
